@@ -279,3 +279,21 @@ Definition kills (p id : Z) (e : op * out) : bool :=
 (* the raw secret findSession looks at: the cookie when the request has one (whatever it holds), else the query *)
 Definition effective (cookie : option (list Z)) (query : list Z) : list Z :=
   match cookie with Some v => v | None => query end.
+
+(* ---------------------------------------------------------------- specification vocabulary --------------------- *)
+
+(* In the trace tr there is an admitted, non-CDN multivariant request on path p from client IP ip that went through
+   the cookie check and created the session `id` with secret u, and nothing after it in tr ended that session. *)
+Definition backed (c : config) (tr : list (op * out)) (p id : Z) (u : uuid) (ip : Z) : Prop :=
+  exists pre mid cred hdr ccc vc,
+    tr = pre ++ (Multi p cred ip hdr true ccc u, OCreated vc id) :: mid /\
+    is_cdn c hdr = false /\ auth c p cred ip = true /\
+    Forall (fun e => kills p id e = false) mid.
+
+(* In the trace tr a multivariant request on path p carrying the CDN secret created the CDN session `id`, and nothing
+   after it in tr ended that session. *)
+Definition cdn_backed (c : config) (tr : list (op * out)) (p id : Z) : Prop :=
+  exists pre mid cred ip hdr ccq ccc sec,
+    tr = pre ++ (Multi p cred ip hdr ccq ccc sec, OCdnCreated id) :: mid /\
+    is_cdn c hdr = true /\
+    Forall (fun e => kills p id e = false) mid.
